@@ -132,9 +132,12 @@ Definition commit_ser (oooCap : Z) (c0 : ctrs) (s : mser) (x : landed) : mser * 
       let c1 := upd_stale (lv_stale was) stale c0 in
       let c2 := if hist then upd_hist (lv_hist was) true (lv_nb was) nb_in c1
                 else if lv_hist was then upd_hist true false (lv_nb was) 0 c1 else c1 in
-      let c3 := if cut then add_chunks 1 c2 else c2 in           (* onChunkCreated *)
+      (* appendPreprocessor: `if c == nil { c = s.cutNewHeadChunk(...); chunkCreated = true }`;
+         with a head chunk present the decision is the oracle's *)
+      let cut' := match s_hc s with [] => true | _ => cut end in
+      let c3 := if cut' then add_chunks 1 c2 else c2 in          (* onChunkCreated *)
       let v := if hist then LH stale nb_after else LF stale in
-      (set_pend false (set_last v (set_hc (push_or_bump cut t (s_hc s)) s)), c3)
+      (set_pend false (set_last v (set_hc (push_or_bump cut' t (s_hc s)) s)), c3)
   | LOoo _ k dup =>
       let need := match s_ohead s with None => true | Some n => n =? oooCap end in
       if need then
@@ -337,14 +340,16 @@ Fixpoint trace (oooCap : Z) (st : state) (ops : list op) : list state :=
    - an out-of-order head chunk was flushed into exactly one m-mapped chunk,
    - a sample landed in a series that is still in the head,
    - no head chunk came out of a chunk snapshot, none was dropped by the WAL replay,
-   - in the per-series structure read back after a restart, s.ooo == nil implies no OOO chunks. *)
+   - in the per-series structure read back after a restart, s.ooo == nil implies no OOO chunks
+     (and the number of OOO m-mapped chunks is not negative). *)
 Definition wf_landed (l : list mser) (x : landed) : bool :=
   is_some (find_ser (landed_ref x) l) &&
   match x with
   | LIn _ _ hist _ nb_in nb_after _ => if hist then nb_in =? nb_after else true
   | LOoo _ k _ => k =? 1
   end.
-Definition ooo_ok (s : mser) : bool := s_ostruct s || ((s_omm s =? 0) && negb (is_some (s_ohead s))).
+Definition ooo_ok (s : mser) : bool :=
+  (0 <=? s_omm s) && (s_ostruct s || ((s_omm s =? 0) && negb (is_some (s_ohead s)))).
 Definition wf_ser (s : mser) : bool := (s_snap s =? 0) && ooo_ok s.
 Definition wf_op (st : state) (o : op) : bool :=
   match o with
